@@ -740,6 +740,8 @@ def run_colidx(ctx) -> RuleResult:
                         if not isinstance(sub, ast.Subscript) or (id(sub), id(step.vars)) in seen:
                             continue
                         exp = step.expand(sub)
+                        if not isinstance(exp, ast.Subscript):
+                            continue  # E[position in E] is the loop element (Σelem): no column index involved
                         cands = list(exp.slice.elts) if isinstance(exp.slice, ast.Tuple) else [exp.slice]
                         call = next((c for c in cands if isinstance(c, ast.Call) and isinstance(c.func, ast.Name)
                                      and c.func.id in module.functions and c.args and "index" in c.func.id), None)
